@@ -206,6 +206,17 @@ def run(ck, ctx):
         L = D.A("losPathLen")
         base, chain = scatter_chain(L)
         minL, maxL = D.A("minLOSpathLen"), D.A("maxLOSpathLen")
+        if not chain:
+            # direct form: the value must be confined to [minLOS, maxLOS] by construction
+            from .c01 import strip_clip
+            sc = strip_clip(L)
+            ok = sc is not None and g.same(sc[1], minL) and g.same(sc[2], maxL)
+            ck.ob("R02.5", "the line-of-sight length is confined to [configured minimum, horizon distance] for every "
+                  "random number (clipped; no default value can escape)", ok, L, func, g.show(L, 2),
+                  construct="RegionGeom.throw: losPathLen not confined to [minLOS, maxLOS]")
+            ck.ob("R02.6", "the stored root is range-guarded", ok, L, func, "",
+                  construct="RegionGeom.throw: losPathLen root unguarded")
+            return
         P = PolyFacet(I, opaque_ids={minL.id, maxL.id})
         pr = Pred(I)
         ck.floor("R02.5", len(chain), 3, "masked stores into the line-of-sight length")
@@ -230,8 +241,6 @@ def run(ck, ctx):
                 guarded = bool(imp and imp[0])
                 detail = "" if guarded else "store mask does not imply  v > 0 and minLOS <= v <= maxLOS"
             else:
-                # value computed only for the selected events: look for the range guard in the mask
-                at = pr.atoms_of(pr.formula(mask))
                 detail = "value computed from the selected events without a range mask on the result"
             ck.ob("R02.6", f"store into losPathLen under '{g.show(mask, 2)}' is guarded by the range mask of "
                   "the stored root", guarded, sc, func, detail,
@@ -249,6 +258,7 @@ def _root_names(I, D):
         names = {"core": "core_alt", "R2": "earth_rad_2", "maxL": "maxLOSpathLen", "minL": "minLOSpathLen"}
         nodes = {k: D.A(v) for k, v in names.items()}
         P = PolyFacet(I, opaque_ids={n.id for n in nodes.values()}, gather_transparent=True)
+        P.domain_clip_transparent = True
         env = {k: P.of(n) for k, n in nodes.items()}
         rows = Dep(I).rows_of(D.A("losPathLen"), {D.u.id})
         if len(rows) != 1:
